@@ -320,6 +320,11 @@ func runC14Cleanup(tier string, seed uint64, idx int) core.Result {
 		return ok
 	}
 	nA := 1 + rng.IntN(4)
+	if idx%5 == 4 {
+		// the session owns nothing when its cleanup lists its keys; its first records arrive during the cleanup
+		nA = 0
+		r.Count("cleanups_of_a_session_owning_nothing_at_the_listing", 1)
+	}
 	var aKeys []string
 	for i := 0; i < nA; i++ {
 		k := fmt.Sprintf("a/%d", i)
@@ -339,9 +344,15 @@ func runC14Cleanup(tier string, seed uint64, idx int) core.Result {
 	var plan []*interference
 	touched := false
 	for i := 0; i < n; i++ {
-		k := aKeys[rng.IntN(len(aKeys))]
+		k := "a/0"
+		kind := rng.IntN(7)
+		if len(aKeys) > 0 {
+			k = aKeys[rng.IntN(len(aKeys))]
+		} else if kind != 6 {
+			kind = 3
+		}
 		var it *interference
-		switch rng.IntN(7) {
+		switch kind {
 		case 0:
 			it = &interference{kind: "plain-put-on-owned-key", req: &proto.WriteRequest{Puts: []*proto.PutRequest{{Key: k, Value: h.nextValue()}}}}
 			touched = true
